@@ -62,8 +62,17 @@ def run_case(ctx, res, p):
     basis = X if family == "full" else Xu
     Kbb = cu.kernel_np(cov, basis, basis)
     # regulariser the property states
+    unc = p.get("unc")
+    std = None if unc is None else np.asarray(unc["std"], float)
+    Lest = None if unc is None or unc.get("Lest") is None else np.asarray(unc["Lest"], float)
+    ycf = None if Lest is None else Lest * std[None, :]
+    wu = unc is not None
+    res.count("uncertainty_options=" + ("none" if unc is None else ("factor" if Lest is not None else "std")))
     if family == "full":
-        Nmat = None if (sigma is None and not y_is_mean) else cu.noise_matrix(n, sigma, jitter, y_is_mean)
+        if sigma is None and not y_is_mean and ycf is not None:
+            Nmat = cu.noise_matrix(n, None, jitter, False, ycf=ycf)
+        else:
+            Nmat = None if (sigma is None and not y_is_mean) else cu.noise_matrix(n, sigma, jitter, y_is_mean)
     else:
         Nmat = None if (sigma is None and not y_is_mean) else cu.noise_matrix(Xu.shape[0], sigma, jitter, y_is_mean)
     if p.get("Lgiven") and Nmat is not None and family in ("full", "chol"):
@@ -76,11 +85,11 @@ def run_case(ctx, res, p):
     yimpl = Y
     try:
         if family == "full":
-            pred = cu.build_impl(variant, X, None, None, None, yimpl, mu, cov, None, Lgiven, sigma, jitter, y_is_mean, False)
+            pred = cu.build_impl(variant, X, None, None, std, yimpl, mu, cov, Lest, Lgiven, sigma, jitter, y_is_mean, wu)
         elif family == "lm":
-            pred = cu.build_impl(variant, X, Xu, None, None, yimpl, mu, cov, None, None, sigma, jitter, y_is_mean, False)
+            pred = cu.build_impl(variant, X, Xu, None, std, yimpl, mu, cov, Lest, None, sigma, jitter, y_is_mean, wu)
         else:
-            pred = cu.build_impl(variant, X, Xu, Z, None, np.zeros(n), mu, cov, None, Lgiven, sigma, jitter, y_is_mean, False)
+            pred = cu.build_impl(variant, X, Xu, Z, std, np.zeros(n), mu, cov, None, Lgiven, sigma, jitter, y_is_mean, wu)
         impl_status = "ok"
     except Exception as e:
         pred, impl_status = None, exc_class(e)
@@ -97,17 +106,18 @@ def run_case(ctx, res, p):
     mod = None
     if ctx["driver"] is not None:
         if family == "full":
-            mod = cu.model_full(ctx["driver"], tree, X, Ycond, mu, Lgiven, sigma, jitter, None, y_is_mean, False, Xq)
+            mod = cu.model_full(ctx["driver"], tree, X, Ycond, mu, Lgiven, sigma, jitter, ycf, y_is_mean, wu, Xq)
         elif family == "lm":
-            mod = cu.model_lm(ctx["driver"], tree, X, Xu, Ycond, mu, sigma, jitter, None, y_is_mean, False, Xq)
+            mod = cu.model_lm(ctx["driver"], tree, X, Xu, Ycond, mu, sigma, jitter, ycf, y_is_mean, wu, Xq)
         else:
-            mod = cu.model_lmchol(ctx["driver"], tree, Xu, Z, mu, n, Lgiven, sigma, jitter, y_is_mean, False, Xq)
+            mod = cu.model_lmchol(ctx["driver"], tree, Xu, Z, mu, n, Lgiven, std if std is not None else sigma, jitter,
+                                  y_is_mean, wu, Xq)
 
     if impl_status != "ok":
         res.case(canon, False, sample)
         res.count("impl_refused=" + impl_status)
         # refusal must be the documented ValueError for a missing noise specification
-        if sigma is None and not y_is_mean and Lgiven is None:
+        if sigma is None and not y_is_mean and Lgiven is None and ycf is None:
             if impl_status != "ValueError":
                 res.oracle_fail(f"missing noise specification raised {impl_status} instead of ValueError", p,
                                 signature="C01:refusal-class")
@@ -286,6 +296,20 @@ def gen_case(rng, stream):
         sigma = None if y_is_mean else loguniform(rng, 0.05, 1.0)
     if family == "lm" and sigma is not None and np.ndim(sigma) > 0 and Xu.shape[0] != n and not y_is_mean:
         pass  # per-landmark vector: accepted by the code (sized by m)
+    # uncertainty options must not change the conditional mean: with y_is_mean the regulariser stays jitter*I whatever
+    # latent standard deviations / factor are passed along; for the full model without sigma the factor defines the noise
+    unc = None
+    if rng.random() < 0.3:
+        if y_is_mean:
+            sigma = None if rng.random() < 0.5 else 0
+            if family == "chol":
+                unc = {"std": np.exp(rng.uniform(-3, 0, size=nb))}
+            else:
+                r = [2, n][rng.integers(2)]
+                unc = {"std": np.exp(rng.uniform(-3, 0, size=r)), "Lest": rng.normal(size=(n, r)) * 0.5}
+        elif family == "full" and sigma is None:
+            r = [2, n][rng.integers(2)]
+            unc = {"std": np.exp(rng.uniform(-3, 0, size=r)), "Lest": rng.normal(size=(n, r)) * 0.5}
     Y = Z = None
     if family == "chol":
         Z = rng.normal(size=(Xu.shape[0], cols) if cols > 1 else Xu.shape[0])
@@ -296,7 +320,7 @@ def gen_case(rng, stream):
             mu = float(rng.normal() * 0.3)
     return {"op": "cond", "variant": variant, "family": family, "tree": tree, "X": X, "Xu": Xu, "Y": Y, "Z": Z,
             "mu": mu, "jitter": jitter, "sigma": sigma, "y_is_mean": y_is_mean,
-            "Lgiven": bool(rng.random() < 0.25), "Xq": Xq, "stream": stream}
+            "Lgiven": bool(rng.random() < 0.25), "Xq": Xq, "stream": stream, "unc": unc}
 
 
 def run(ctx, res):
